@@ -8,8 +8,10 @@ tvars == <<cb, kvars>>
 TInit == KInit /\ cb = 0
 TStep ==
     /\ vkind = "" /\ l <= Len(Tr.steps) /\ l' = l + 1 /\ UNCHANGED tid
-    /\ LET b == Tr.steps[l].in.b  o == Tr.steps[l].out.c IN
-       /\ cb' = Byte(cb, b)
+    /\ LET ev == Tr.steps[l].in  o == Tr.steps[l].out.c
+           b == IF ev.e = "byte" THEN ev.b ELSE 0 IN
+       \* "empty": crc7 of the message so far without any further byte (at the start: of the empty message)
+       /\ cb' = (IF ev.e = "byte" THEN Byte(cb, b) ELSE cb)
        /\ seen' = seen \cup {IF l = 1 THEN "first" ELSE "later"}
        /\ IF o # -9 /\ o # cb'      \* -9: this prefix was not observed
           THEN Verdict("MISMATCH", [v |-> "MISMATCH", tid |-> Tr.id, l |-> l, clauses |-> {"csum"}, br |-> <<>>,
